@@ -221,6 +221,10 @@ let () =
               go None (int_of_nat (hm_capacity !hms) + 2);
               let sp = "v" ^ String.concat "" (List.map (fun (k, v) -> Printf.sprintf ",%s=%s" (dec_of_z k) (dec_of_z v)) !hspec) in
               Some (Buffer.contents buf ^ hm_line () ^ " || " ^ sp ^ hspec_line ())
+            end else if op = 18 then begin
+              (* mnext walk: the number of bindings the iterator model of pairs visits *)
+              let n = (match hm_for_pairs !hms with Ok (_, l) -> string_of_int (List.length l) | Trap t -> "TRAP " ^ trap_name t) in
+              Some ("m" ^ n ^ hm_line () ^ " || m" ^ string_of_int (List.length !hspec) ^ hspec_line ())
             end else if op = 14 then begin
               let lo = Int64.to_int a and hi = Int64.to_int b in
               let ks = List.init (max 0 (hi - lo + 1)) (fun i -> z_of_int (lo + i)) in
@@ -391,6 +395,10 @@ let () =
              | 18 -> (match select_from (z_of_int 2) [a; b; Int64.logxor a b] with
                  | Some l -> Some (String.concat " " (List.map Int64.to_string l)) | None -> Some "none")
              | 19 -> (match select_from (z_of_int (-1)) [a; b; Int64.logxor a b] with
+                 | Some l -> Some (String.concat " " (List.map Int64.to_string l)) | None -> Some "none")
+             | 21 -> (match select_from (z_of_int (-2)) [a; b; Int64.logxor a b] with
+                 | Some l -> Some (String.concat " " (List.map Int64.to_string l)) | None -> Some "none")
+             | 22 -> (match select_from (z_of_int 1) [a; b; Int64.logxor a b] with
                  | Some l -> Some (String.concat " " (List.map Int64.to_string l)) | None -> Some "none")
              | 20 -> let s1 = sbbytes (Int64.to_int a) (Int64.to_int b) in
                      let s3 = s1 @ [z_of_int 120] in
